@@ -353,6 +353,8 @@ def _block_of(repo, st):
 def run(ctx):
     """R08.6: without --out the designated output is stdout, so nothing but the result may be written there.
     Log records are the one other thing the command emits on every run: the logging set-up must keep them on stderr."""
+    ctx.rule('R08.9', 'name binding: every global name a function refers to is bound at module level or builtin, and every local is assigned on every path before it is read', floor=4)
+    ctx.rule('R08.8', 'every exactly resolved call binds against its callee\'s signature (no missing/unknown/surplus argument on any arm)', floor=3)
     ctx.rule('R08.7', 'read_notebook substitutes an empty notebook for an unreadable input only if the file is empty (pure emptiness test before the fallback)', floor=1)
     ctx.rule('R08.6', 'log records never go to stdout (where the merged notebook is written when no --out is given): logging is configured '
              'with the default stderr stream', floor=1)
@@ -390,3 +392,7 @@ def run(ctx):
             ctx.inst('R08.7', 'nbdime.utils:read_notebook', 'if %s: raise' % repo.norm(x.test), ok,
                      'only a 0-byte input is replaced by an empty notebook' if ok else
                      'a corrupt (non-empty) input can be replaced by an empty notebook: the command then reports success on a merge of the wrong content', x)
+    from ..signatures import call_compat
+    call_compat(ctx, 'R08.8', ['nbdime.nbmergeapp', 'nbdime.vcs.git.mergedriver', 'nbdime.utils', 'nbdime.args'], 'the command dies with a traceback (non-zero, but for a reason unrelated to conflicts)')
+    from ..names import name_binding
+    name_binding(ctx, 'R08.9', ['nbdime.nbmergeapp', 'nbdime.vcs.git.mergedriver', 'nbdime.utils', 'nbdime.args'])
